@@ -89,8 +89,8 @@ Print Assumptions C11_fits_representable.
    one and a value 1.5 for the long column are rejected, a commit fails, and the scans see exactly the
    two accepted rows. *)
 Definition ex_fields : list field :=
-  [ {| fid := 1; fname := 0; ftype := T_long; freq := true |};
-    {| fid := 2; fname := 1; ftype := T_float; freq := false |} ].
+  [ {| fid := 1; fname := 0; ftype := T_long; fspell := 0; freq := true |};
+    {| fid := 2; fname := 1; ftype := T_float; fspell := 0; freq := false |} ].
 Definition ex_ts : ischema := {| sid := 1; sfields := ex_fields |}.
 Definition ex_rnd (q : Q) : num := Fin q.
 Definition ex_conv (a : atype) (v : pyval) : option pyval :=
@@ -112,7 +112,7 @@ Definition ex_history : list event :=
   [ {| e_handle := 0; e_arg := None; e_recs := [ex_rec (PV (VInt 7)) (PV (VFlt (Fin (1 # 2))))]; e_commit_ok := true |};
     {| e_handle := 0; e_arg := Some {| sid := 1; sfields := rev ex_fields |}; e_recs := [ex_rec (PV (VInt 8)) (PV VNull)]; e_commit_ok := true |};
     {| e_handle := 1; e_arg := Some {| sid := 7; sfields :=
-         [ {| fid := 2; fname := 0; ftype := T_long; freq := true |}; {| fid := 1; fname := 1; ftype := T_float; freq := false |} ] |};
+         [ {| fid := 2; fname := 0; ftype := T_long; fspell := 0; freq := true |}; {| fid := 1; fname := 1; ftype := T_float; fspell := 0; freq := false |} ] |};
        e_recs := [ex_rec (PV (VInt 9)) (PV VNull)]; e_commit_ok := true |};
     {| e_handle := 0; e_arg := None; e_recs := [ex_rec (PV (VFlt (Fin (3 # 2)))) (PV VNull)]; e_commit_ok := true |};
     {| e_handle := 0; e_arg := None; e_recs := [ex_rec (PV (VInt 10)) (PV VNull)]; e_commit_ok := false |};
